@@ -32,7 +32,7 @@ MCAdd(t, idx, k) ==
 MCApply == ApplyNext /\ hist' = Append(hist, [k |-> "Apply"]) /\ UNCHANGED <<nadd, nbad, ndup>>
 MCFinalize == Finalize /\ hist' = Append(hist, [k |-> "Finalize"]) /\ UNCHANGED <<nadd, nbad, ndup>>
 
-MCNext == \/ \E t \in Trees, idx \in 0..3, k \in Kinds : idx <= NSeg(t) /\ MCAdd(t, idx, k)
+MCNext == \/ \E t \in Trees : \E idx \in 0..NSeg(t), k \in Kinds : MCAdd(t, idx, k)
           \/ (Len(hist) < MaxLen /\ MCApply)
           \/ MCFinalize
 MCSpec == MCInit /\ [][MCNext]_mcvars
